@@ -89,6 +89,7 @@ func cmdRun(args []string) int {
 	fp := fs.Bool("fp", false, "use cvc5 for floating-point queries")
 	trace := fs.Bool("trace", false, "trace instructions")
 	conc := fs.Int("conc", 64, "concretisation limit")
+	maxPaths := fs.Int("maxpaths", 0, "stop after this many paths (0 = no cap)")
 	fs.Parse(args)
 	lp, err := loadProgram(*pkg)
 	if err != nil {
@@ -96,7 +97,7 @@ func cmdRun(args []string) int {
 		return 2
 	}
 	cfg := &harnessCfg{Prop: "adhoc", Pkg: *pkg, Func: *fn, Tier: *tier, StepBudget: *steps, DecBudget: *decs,
-		concLimit: *conc, Timeout: time.Duration(*timeout) * time.Second, Workers: *workers, FP: *fp}
+		concLimit: *conc, Timeout: time.Duration(*timeout) * time.Second, Workers: *workers, FP: *fp, MaxPaths: *maxPaths}
 	traceAll = *trace
 	res := runHarness(cfg, lp)
 	printResult(res)
